@@ -351,8 +351,8 @@ pub static C05: CheckDef = CheckDef {
     assumptions: &["ample gas = 5*10^6 (50k steps; unbounded recursions end in Out of gas)", "the corelib-test verdict vectors are covered by the thorough tier only"],
     run: run_c05,
     stack_mb: 16,
-    item_timeout_s: 300,
-    wall_cap_s: (55, 1700),
+    item_timeout_s: 1500,
+    wall_cap_s: (55, 3000),
     shards: 0,
 };
 
